@@ -5,6 +5,8 @@ import sys, os
 sys.path.insert(0, os.path.dirname(os.path.abspath(__file__)))
 from common import *
 
+OUTPUTS = ['NbConfig.v']
+
 CODE = r'''
 import json, operator
 import nbdime.diffing.notebooks as N
